@@ -50,6 +50,12 @@ def scenario_docs():
         [{'k': 'def', 'cmd': 'newcommand', 'name': N(), 'nargs': None, 'inner': ('nested-begin', K.H('NAME', 1))}, T()],
         [{'k': 'def', 'cmd': 'providecommand', 'name': N(), 'nargs': '1', 'inner': ('nested-end', K.H('NAME', 1))}],
         [{'k': 'def', 'cmd': 'renewcommand', 'name': N(), 'nargs': '2', 'inner': ('begin', K.H('NAME', 1))}, T()],
+        # a line break followed by text (any 4 characters)
+        [{'k': 'group', 'body': [{'k': 'lbr', 's': '\\\\'}, T(4)]}],
+        [math(D, C('a'), {'k': 'lbr', 's': '\\\\'}, T(4))],
+        # a group with a list directly after a math environment
+        [{'k': 'mathenv', 'name': 'math', 'body': [T()]}, {'k': 'group', 'body': [lst(item([], T(1, nl=True)))]}],
+        [{'k': 'mathenv', 'name': 'equation', 'body': [T()]}, C('\n'), {'k': 'group', 'body': [lst(item([], C(' a')))]}, T()],
         # environment names are arbitrary text between the braces
         [env('[tex]', [], T()), T()],
         [env('a-b', [br(T())], env('x.y', [], T()))],
